@@ -212,7 +212,15 @@ struct H {
         auto complex_z = [&]() -> cl { return cl((ld)c.real(1, 200), (ld)c.real(-100, 100)); };
         z0.assign(F, std::vector<cl>(n));
         if (z0mode == 0) { cl z = real_z(); for (auto &r : z0) for (auto &x : r) x = z; }
-        else if (z0mode == 1) { std::vector<cl> r(n); for (auto &x : r) x = real_z(); if (r[0] == r[n - 1]) r[n - 1] = r[0] * (ld)1.5; for (auto &q : z0) q = r; }
+        else if (z0mode == 1) {
+            // unequal real: drawn with repetition from a few values, so that patterns like 50/75/50 (last port
+            // equal to the first, a middle one different) occur; only "all equal" is excluded
+            std::vector<cl> r(n); cl pool[3] = {real_z(), real_z(), real_z()};
+            for (auto &x : r) x = pool[c.draw(3)];
+            bool alleq = true; for (int k = 1; k < n; k++) if (!(r[k] == r[0])) alleq = false;
+            if (alleq) { int k = 1 + (int)c.draw(n - 1); r[k] = r[0] * (ld)1.5; }
+            for (auto &q : z0) q = r;
+        }
         else if (z0mode == 2) { std::vector<cl> r(n); for (auto &x : r) x = c.chance(1, 4) ? real_z() : complex_z(); for (auto &q : z0) q = r; }
         else for (auto &r : z0) for (auto &x : r) x = c.chance(1, 4) ? real_z() : complex_z();
         for (auto &r : z0) for (auto &x : r) x = cl((ld)(double)x.real(), (ld)(double)x.imag());
